@@ -5,7 +5,7 @@
     shapes of the harness x every subset of set fields (representative
     values), and tied to the library for random values by correspondence. *)
 From Coq Require Import String ZArith.
-From PSA Require Import Base Lines Cbor Wire Embedded RunEmb EmbeddedProofs EmbeddedRoundtrip EmbeddedFlat.
+From PSA Require Import Base Lines Cbor Wire Embedded RunEmb EmbeddedProofs EmbeddedRoundtrip EmbeddedFlat EmbeddedDeep.
 Open Scope N_scope.
 
 Theorem C15_header_correct : forall n : N, n < 2 ^ 32 -> map_header n = head 5 n.
@@ -49,3 +49,11 @@ Theorem C15_flat_struct_roundtrip : forall its : list item,
   exists b, serialize its = Some b /\ populate b (map clear_item its) = Some its.
 Proof. exact flat_struct_roundtrip. Qed.
 Print Assumptions C15_flat_struct_roundtrip.
+
+(** every struct shape following the claims convention (embedded structs and interfaces to any depth the
+    codec supports, keys pairwise distinct over all levels) and every well-typed value assignment *)
+Theorem C15_struct_roundtrip : forall its : list item,
+  shape_ok 16 its -> NoDup (keys_of (flatten 16 its)) -> N.of_nat (length (flatten 16 its)) < 2 ^ 32 ->
+  exists b, serialize its = Some b /\ populate b (deep_clear 16 its) = Some its.
+Proof. exact struct_roundtrip. Qed.
+Print Assumptions C15_struct_roundtrip.
